@@ -9,7 +9,7 @@ rsync -a --exclude .git --exclude __pycache__ /repo/ "$dir/"
 clean=$(mktemp -d /var/tmp/aeic-clean-XXXXXX)
 rsync -a --exclude .git --exclude __pycache__ /repo/ "$clean/"
 if ! (cd "$dir" && patch -p1 -s < "$src/patch.diff"); then echo "PATCH-FAILED"; rm -rf "$dir" "$clean"; exit 3; fi
-echo "== tests with change:"; (cd "$dir" && PYTHONPATH="$dir/src" /venv/bin/python -m pytest -q -p no:cacheprovider --timeout=900 2>&1 | grep -E "passed|failed" | tail -1)
+echo "== tests with change:"; (cd "$dir" && PYTHONPATH="$dir/src" /venv/bin/python -m pytest -q -p no:cacheprovider --timeout=900 > "$dir/tests.out" 2>&1; grep -E "passed|failed|error" "$dir/tests.out" | tail -1)
 # demos hard-code /tmp/seed-XXX paths sometimes: run them from a copy with the path rewritten
 demo="$dir/scratch_demo.py"; sed "s#/tmp/seed-C[0-9]*#$dir#g" "$src/demo.py" > "$demo"
 mkdir -p "$dir/scratch" "$clean/scratch"
